@@ -968,7 +968,8 @@ fn restrict(m: &typegen::Module, keep_insts: &[usize]) -> Option<typegen::Module
     for (n, td) in out.types.iter().enumerate() {
         let registered = out.insts.iter().any(|t| matches!(t, typegen::TyExpr::User(i, _) if *i == n));
         if !registered {
-            let args = td.params.iter().map(|_| typegen::TyExpr::Prim("i32")).collect();
+            // (a concretised parameter is instantiated at its concrete type)
+            let args = td.params.iter().map(|p| p.concrete.clone().unwrap_or(typegen::TyExpr::Prim("i32"))).collect();
             out.insts.push(typegen::TyExpr::User(n, args));
         }
     }
